@@ -40,9 +40,12 @@ def _state(p, pr):
     return (vs, p.scan_count, p.match_count, p.is_valid, p.stopped, errs, list(pr.lines), p.line_monitor.physical_line_number)
 
 
-def _recs(b1, b3):
+def _recs(b1, b3, odd=False):
     blanks = [False, b1, False, b3, False, False]
-    return [[] if blanks[i] else [str(i), "x"] for i in range(NREC)]
+    recs = [[] if blanks[i] else [str(i), "x"] for i in range(NREC)]
+    if odd:
+        recs[4] = [" "]  # a record of one cell holding only a blank: not a blank record, it is scanned and may match
+    return recs
 
 
 @ob(
@@ -50,18 +53,19 @@ def _recs(b1, b3):
     "O1-three-ways",
     pre=["{KLO} <= k <= {KHI}", "0 <= n <= {NHI}"],
     post="_",
-    bound="6 stub records (2 symbolic blank flags), firing line k KLO..KHI and advance count n 0..NHI symbolic; templates "
+    bound="6 stub records (2 symbolic blank flags; in the 'odd' shards one record is a single cell holding a blank), firing line k KLO..KHI and advance count n 0..NHI symbolic; templates "
     "with stop, skip, advance, last, print, fail, error-provoking component; compared: returned lines and the tuple "
     "(variables, scan_count, match_count, is_valid, stopped, errors, printouts, last line number read)",
     outside="more than 6 records; other templates",
     encodes=["csvpath/csvpath.py:CsvPath.collect/next/fast_forward/_consider_line/finalize", "csvpath/util/line_spooler.py:ListLineSpooler.append"],
     tiers={
-        "quick": {"timeout": 900, "K": {"KLO": -1, "KHI": 6, "NHI": 3}, "shards": product(tpl=[t for t in TPL if t not in ("advance", "onmatch-reject", "keep-stop")], n=[0], b1=[False]) + product(tpl=["advance", "onmatch-reject", "keep-stop"], b1=[False])},
-        "thorough": {"timeout": 3000, "K": {"KLO": -2, "KHI": 7, "NHI": 6}, "shards": product(tpl=[t for t in TPL if t not in ("advance", "onmatch-reject", "keep-stop")], n=[0]) + product(tpl=["advance", "onmatch-reject", "keep-stop"])},
+        "quick": {"timeout": 900, "K": {"KLO": -1, "KHI": 6, "NHI": 3}, "shards": product(tpl=[t for t in TPL if t not in ("advance", "onmatch-reject", "keep-stop")], n=[0], b1=[False]) + product(tpl=["advance", "onmatch-reject", "keep-stop"], b1=[False])
+                  + product(tpl=["last", "no-matches"], n=[0], b1=[False], odd=[True])},
+        "thorough": {"timeout": 3000, "K": {"KLO": -2, "KHI": 7, "NHI": 6}, "shards": product(tpl=[t for t in TPL if t not in ("advance", "onmatch-reject", "keep-stop")], n=[0]) + product(tpl=["advance", "onmatch-reject", "keep-stop"]) + product(tpl=["last", "no-matches", "stop"], n=[0], odd=[True])},
     },
 )
-def three_ways(tpl: str, k: int, n: int, b1: bool, b3: bool) -> bool:
-    recs = _recs(b1, b3)
+def three_ways(tpl: str, k: int, n: int, b1: bool, b3: bool, odd: bool = False) -> bool:
+    recs = _recs(b1, b3, odd)
     p1, pr1 = fresh(TPL[tpl], recs)
     p1.variables["k"] = k
     p1.variables["n"] = n
